@@ -16,6 +16,10 @@ CHECKS = {
     technique='TLA+ Packet.tla: the v5 frame grammar (RefFrame) and the code-shaped header reading (Scan) at character level, trees with depth-first placeholder numbering; TLC proves round trip on its universe, dumps it, and judges every case recorded from the real Packet codec (PacketCases.tla)',
     text='G1: on 1179 packets built from a hostile little alphabet (digits next to "-" "," "/" "?" in namespaces, event names and strings; ids up to 100 digits; byte strings nested in lists and dicts) TLC checks Scan(RefFrame(p)) = header(p) with "/" implied and the query string dropped, Reconstruct(Deconstruct(d)) = d with attachments in production order, and that byte strings are accepted only for events and acks. G2: TLC dumps that universe; every packet of it plus seeded random packets (unicode incl. non-BMP and control characters, floats, 64-bit and 100-digit numbers, nested byte strings) is (enc) encoded by the real Packet and compared character by character with RefFrame, attachments in order, and (dec) encoded by the independent specification-derived codec harness/refcodec.py - which TLC requires to equal RefFrame - and decoded by the real Packet with add_attachment per attachment: type, namespace, id, payload tree and the completion flags must be what the spec says; (scan) mutated ASCII frames: the header reading and the refusals of Packet.decode must be Scan. Coverage of the universe by the cases is checked by TLC.',
     ref='4/C01', note='Trusted: TLC; the json module for the text of JSON scalars (a scalar travels with its text); msgpack is exercised end to end in C02, not here. Binary packets are built as the library builds them (EVENT/ACK promoted by the constructor).'),
+ 'C02': dict(
+    technique='TLA+ E2E.tla (per-direction FIFO of emitted messages, packed return values travelling back; Pack/Shape rules) model-checked by TLC + trace validation: recorded conversations of a real Client joined to a real Server (and AsyncClient/AsyncServer) replayed by TLC (E2ETraces.tla)',
+    text='8 configurations {Server+Client, AsyncServer+AsyncClient} x {default, msgpack} x {text/base64, binary engine.io framing}: seeded conversations of bursts of emit/send/call in either direction on two namespaces with callbacks, call() or no acknowledgement, payloads = JSON trees with byte-string leaves (unicode incl. non-BMP and control characters, 64-bit integers, floats, tuples at top level only, None, empty tuple), handler return values of the same shapes; the pipe is pumped after several messages so multi-frame binary packets of different messages are in flight together. Every payload is interned by strict deep equality (bytes/str, bool/int, int/float, list/tuple distinct); each recorded event (Emit, Handled with the arguments the handler really got, Callback, CallReturned, End) must be enabled in E2E.tla: oldest message first, same namespace and event, exactly Pack(x) as arguments, callback/call() result = Pack(return value) of that very emit, once; nothing left in flight at the end. G1: the machine itself is explored (1.6M states) for the arity and shape lemmas.',
+    ref='4/C02', note='Trusted: TLC; FakeEio on the client side, real engine.io server socket and real engine.io packet codec on the pipe; strict deep equality of payloads is the harness\'s (tokens.strict_eq). Threaded server: async_handlers=True with the background task run inline (Server.call() requires async_handlers).'),
  'C03': dict(
     technique='TLA+ SioServer.tla model-checked by TLC; exhaustive transition-graph validation of Manager/AsyncManager via Server/AsyncServer',
     text='G1: TLC checks C03_Recipients (code-shaped recipient computation = statement-shaped addressed set for EVERY emit of the alphabet in EVERY reachable state), C03_RoomsListing, C03_NoGhostsOfTheDeparted on the spec. G2: from every reachable abstract state of the real Server and AsyncServer every alphabet action is executed and TLC re-executes the edge with the spec, comparing the whole projected manager state, every packet per transport, results. G3: state counts equal, so the two graphs are equal inside the scope.',
